@@ -21,7 +21,8 @@ func init() {
 		Explanation: "Absence of panics for every decodable request is a whole-program value property and is declined as such. Decided, over every module function statically reachable from the gNMI and admin RPC handlers (and, for the value classes, from the v2 controllers' Reconcile): " +
 			"(1) wire-nullable dereference: a field read through a pointer that comes from an optional field of a request message (directly, through a getter, through a parameter that some caller feeds with such a value, through a map of messages, or through a module struct field that is assigned nil somewhere) is dominated by a non-nil test of that pointer on every enumerated path; " +
 			"(2) nil-map write: an indexed write into a map that is a field of a decoded message or a never-allocated variable is dominated by a non-nil test or an allocation; (3) sentinel index: a slice bound or index computed from strings.Index/LastIndex is dominated by a test of that result (or a Contains/HasPrefix/HasSuffix test of the same operands); len(x)-1 indexes are dominated by a non-empty test; " +
-			"(4) regexp.MustCompile is applied only to constants or to text whose request-derived part went through regexp.QuoteMeta; (5) no explicit panic() and no single-value type assertion is reachable outside the frozen table of reviewed sites; (6) float values reach big.NewFloat-based constructors only under a NaN test.",
+			"(4) regexp.MustCompile is applied only to constants or to text whose request-derived part went through regexp.QuoteMeta; (5) no explicit panic() and no single-value type assertion is reachable outside the frozen table of reviewed sites; (6) float values reach big.NewFloat-based constructors only under a NaN test." +
+			" Also: C12.14 value of a failed lookup, C12.15 channel typestate of the stores.",
 		Declined: []string{"absence of all run-time panics (integer conversion, allocation size, recursion depth, third-party libraries)", "panics in goroutines of the stores and of the Atomix client", "index expressions other than the sentinel / len-1 classes"},
 		Run:      runC12,
 		Witness:  []WitnessTarget{{pkgNbGnmi, []string{"createUpdate", "getTargetInfo", "processRequest", "doUpdateOrReplace", "doDelete"}}, {pkgUtilsPath, []string{"ExtractIndexNames", "FindPathFromModel"}}},
@@ -147,6 +148,9 @@ func runC12(c *engine.Ctx, tier string) {
 		if rel != pkgStorePropV2 {
 			publishedChannelClosed(c, "C12.9/"+strings.TrimPrefix(rel, "pkg/store/"), rel, 1)
 		}
+		// a second close, or a send after close, in a store goroutine takes the whole process down, where no
+		// recovery interceptor of the request that caused it can catch it (seed C12-r52; the same clause is C15.4)
+		channelTypestate(c, "C12.15/"+strings.TrimPrefix(rel, "pkg/store/"), rel)
 	}
 }
 
